@@ -29,6 +29,12 @@ pub const MODE_SCATTER: u8 = 2;
 static IN_LIB: AtomicBool = AtomicBool::new(false);
 static MODE: AtomicU8 = AtomicU8::new(MODE_PLAIN);
 static BYPASS: AtomicBool = AtomicBool::new(false);
+static BYPASS_BYTES: AtomicU64 = AtomicU64::new(0);
+
+/// bytes requested while in bypass mode (C15 aftermath experiment)
+pub fn bypass_bytes() -> u64 {
+    BYPASS_BYTES.load(Relaxed)
+}
 
 /// Scaling runs (C15) allocate millions of blocks and need no accounting: forward to System.
 pub fn set_bypass(b: bool) {
@@ -291,6 +297,7 @@ fn scatter_next() -> u64 {
 unsafe impl GlobalAlloc for MonAlloc {
     unsafe fn alloc(&self, layout: Layout) -> *mut u8 {
         if BYPASS.load(Relaxed) {
+            BYPASS_BYTES.fetch_add(layout.size() as u64, Relaxed);
             return System.alloc(layout);
         }
         let lib = IN_LIB.load(Relaxed);
